@@ -403,6 +403,22 @@ void janet_sweep() {
     JanetGCObject *current = janet_vm.weak_blocks;
     JanetGCObject *next;
 
+#ifdef JANET_EV
+    /* The table behind ev/all-tasks does not keep its fibers alive: drop the ones about to be freed */
+    {
+        JanetKV *tasks = janet_vm.active_tasks.data;
+        for (int32_t i = 0; i < janet_vm.active_tasks.capacity; i++) {
+            if (janet_checktype(tasks[i].key, JANET_FIBER) && !janet_check_liveref(tasks[i].key)) {
+                /* Mark as tombstone in place */
+                tasks[i].key = janet_wrap_nil();
+                tasks[i].value = janet_wrap_false();
+                janet_vm.active_tasks.deleted++;
+                janet_vm.active_tasks.count--;
+            }
+        }
+    }
+#endif
+
     /* Sweep weak heap to drop weak refs */
     while (NULL != current) {
         next = current->data.next;
